@@ -362,6 +362,10 @@ def sparse10_mutants(rnd, n):
             out.append(sparse10_entry(b"s", m, b"e" * 512, 4096) + END)
             m2 = pre + b"0" * z + b"7" * nd + b"x" + b"512\n"
             out.append(sparse10_entry(b"s", m2, b"e" * 512, 4096) + END)
+    # maps that really hold limit / limit + 1 entries (TAR_MAX_SPARSE_ENT)
+    for n in (LIMIT, LIMIT + 1):
+        ents = [(i * 2, 1) for i in range(n)]
+        out.append(sparse10_entry(b"big", sparse10_map(ents), b"e" * n, 2 * n) + END)
     fm = [None, lambda v: b"0" * 500 + str(v).encode(), lambda v: b"0" * 509 + str(v).encode(), lambda v: b"0" * 30 + str(v).encode()]
     for _ in range(n):
         k = rnd.random()
